@@ -46,7 +46,14 @@ namespace cdsv {
     // One process-wide counter; the RMW is a full barrier on x86, so a.ret < b.inv implies that
     // a returned before b was invoked.
     inline std::atomic<uint64_t>& clock_ref() { static std::atomic<uint64_t> c{ 1 }; return c; }
+#if defined(__SANITIZE_THREAD__)
+    // Under TSan the clock must not create happens-before edges between the operations it time-stamps (a seq_cst RMW on one shared
+    // variable would order every call after every earlier return and hide the data races the payload monitor looks for). A relaxed
+    // RMW is the same `lock xadd` on x86 and TSan's runtime call is opaque to the compiler, so the time stamps stay real-time ordered.
+    inline uint64_t tick() { return clock_ref().fetch_add( 1, std::memory_order_relaxed ); }
+#else
     inline uint64_t tick() { return clock_ref().fetch_add( 1, std::memory_order_seq_cst ); }
+#endif
 
     inline double wall_now()
     {
@@ -370,6 +377,11 @@ namespace cdsv {
     struct Payload { uint64_t v; };
     __attribute__((noinline)) inline void payload_write( Payload* p, uint64_t v ) { p->v = v; }
     __attribute__((noinline)) inline uint64_t payload_read( Payload const* p ) { return p->v; }
+    // Plain copy of the words of a value carried through a container, performed in a harness frame. libcds copies user values with the
+    // value's own copy operations, so a missing happens-before edge between the producer's copy into a node and the consumer's copy out
+    // of it shows up as a TSan data race whose two innermost frames are both cdsv::payload_copy.
+    __attribute__((noinline)) inline uint64_t payload_load( uint64_t const* p ) { return *p; }
+    __attribute__((noinline)) inline void payload_copy( uint64_t* dst, uint64_t const* src, unsigned n ) { for ( unsigned i = 0; i < n; ++i ) dst[i] = src[i]; }
 
 } // namespace cdsv
 
